@@ -42,6 +42,8 @@ VStat(r) ==
      ELSE IF ~r.obs.inrange THEN "PValueInUnitInterval"
      ELSE IF r.obs.count # NumPValues(test, n, IF test = "RandomWalk" THEN r.obs.stat.J ELSE r.args.par) THEN "LadderNumberOfPValues"
      ELSE IF HasBits(r) /\ ~StatOk(r) THEN "IntegerStatistic"
+     \* the block length the reference transcription of Universal used is the one of the specification's ladder
+     ELSE IF test = "Universal" /\ "refL" \in DOMAIN r.obs.stat /\ r.obs.stat.refL # UniversalL(n) THEN "ReferenceLadderDisagreesWithSpec"
      ELSE IF ~r.obs.formula_ok THEN "PValueFormula"
      ELSE "ok"
 VMeta(r) == IF r.raised # "none" THEN "Total"
